@@ -30,6 +30,8 @@ Quirks transcribed as coded (each exercised by the correspondence harness):
   stable-sorted by nonce over ALL senders; the loop over the promoted list indexes a list that grows while it runs;
 * the `InsufficientTxns` test sits inside the loop over built-in transactions (no built-in ⇒ never tested) and counts
   built-in transactions that failed to execute;
+* the verifier's `ValidateWrtTimeForBlock` refuses a transaction whose recipient is its sender; the generator has no such
+  test (the admission handler has), and the engine applies a self-addressed `send` of value 0 or `data` transaction;
 * built-in transactions are appended without consulting the duplicate map, the cost total or the byte size;
 * the verifier's duplicate test for built-in transactions looks at the function NAME of every transaction of the block
   (`isBuildInTxn`), not at the sender or the called contract; since the repair 3af329c the generator's pool iteration
@@ -330,7 +332,7 @@ def blockOf (date : Int) (g : GS) : Block := ⟨date, g.incl, g.st⟩
 
 inductive VErr where
   | dup          -- `Block.Validate`: duplicate transactions
-  | txn          -- `ValidateTransactions`: time tolerance / duplicated built-in transaction
+  | txn          -- `ValidateTransactions`: time tolerance / ToClientID = ClientID / duplicated built-in transaction
   | costErr      -- cost estimate failed
   | costTooBig   -- `ErrCostTooBig`
   | stateReject  -- `ComputeState`: a transaction cannot be applied
@@ -363,7 +365,8 @@ def reexec (feeOn : Bool) : St → List Entry → Option (St × List Status × L
 /-- `VerifyBlock` (the parts listed in the header). -/
 def verify (cfg : Cfg) (prior : St) (b : Block) : Except VErr Unit :=
   if hasDup (b.txns.map (·.key)) then .error .dup
-  else if b.txns.any (fun e => lateAt cfg.tol b.date e.p) || hasDup (b.txns.filterMap (fun e => e.p.bname)) then .error .txn
+  else if b.txns.any (fun e => lateAt cfg.tol b.date e.p) || b.txns.any (fun e => decide (e.p.txn.sender = e.p.txn.to))
+      || hasDup (b.txns.filterMap (fun e => e.p.bname)) then .error .txn
   else
     match blockCost b.txns with
     | none => .error .costErr
